@@ -1028,6 +1028,11 @@ def _profile_cases(big):
     read from a file, joined from two files or selected from a larger file"""
     names, sizes = ["chr1", "chr11", "chr2"], [6, 7, 5]
     base = {"names": names, "sizes": sizes, "filt": True}
+    # no chromosome has entries: values / sequence under an EMPTY interval table (no rows), stranded and not
+    for stranded in (False, True):
+        yield dict(base, op="extract", iv=[], stranded=stranded, vals=[[1, 2, 3, 4, 5, 6], [11, 12, 13, 14, 15, 16, 17], [21, 22, 23, 24, 25]])
+        for backend in ("dict", "fasta"):
+            yield dict(base, op="seq", iv=[], stranded=stranded, seqs=["ACGTAC", "GGATCCA", "TTGCA"], backend=backend)
     for counts in itertools.product(range(4), repeat=3):
         if not any(counts):
             continue
@@ -1210,7 +1215,7 @@ def _cases_main(tier, rng):            # created in the parent, before the worke
                 fop = rng.choice(["pileup", "mask", "sort", "clip", "extend", "location", "extract", "seq"])
                 if fop not in ("location", "extract", "seq") or (via == "genome" and (fop == "location" or all(s_ > 0 for s_ in sizes))):
                     okf = [x for x in ok if x[1] < x[2]] if fop in ("extract", "seq") else ok
-                    if okf:
+                    if okf or fop in ("extract", "seq"):    # an EMPTY extraction table (no chromosome has entries) is a case too
                       yield dict(base, op=fop, via=via, iv=okf if fop != "sort" else rng.sample(ok, len(ok)), stranded=fop == "extend" or (via == "genome" and rng.random() < 0.5),
                                  L=rng.choice([0, 1, 3, 7]), where=rng.choice([0, 1, 2]), backend=rng.choice(["dict", "fasta"]),
                                  vals=[[rng.choice([0, 1, 1, 2, 7]) for _ in range(s_)] for s_ in sizes],
